@@ -261,7 +261,7 @@ class C12(Spec):
                 total += 1
                 text = bytes(x for c in chunks for x in c)
                 res = bytes.fromhex(got.get(str(i), "ff"))
-                if res != text and viol < 2:
+                if res != text and len(ctx.violations) < 2:
                     viol += 1
                     ctx.violation("e2e:cpp-string", {"case": {"kind": "cpp", "chunks": chunks, "std": std},
                                                     "what": f"C++ method returned {res!r}, Rust wrote {text!r}"}, True)
@@ -277,17 +277,17 @@ class C12(Spec):
             sz = sizes[i]
             fl, ln, hx = got[f"s{i}"].split(":")
             mem = list(bytes.fromhex(hx))
-            if mem[sz:] != [0xEE] * 8 and viol < 2:
+            if mem[sz:] != [0xEE] * 8 and len(ctx.violations) < 2:
                 viol += 1
                 ctx.violation("e2e:c-simple-overrun", {"case": {"kind": "c-simple", "chunks": chunks, "bufsize": sz}, "what": "bytes past the caller's buffer were written"}, True)
             goals.append(f"agree_simple {cnat(sz)} 238%N {clist([cbytes(c) for c in chunks])} {cbytes(mem[:sz])} {cnat(int(ln))} {cbool(fl == '1')}")
             ob = bytes.fromhex(got[f"o{i}"])
-            if ob != text and viol < 2:
+            if ob != text and len(ctx.violations) < 2:
                 viol += 1
                 ctx.violation("e2e:c-owned", {"case": {"kind": "c-owned", "chunks": chunks}, "what": f"Rust-owned writer holds {ob!r}, expected {text!r}"}, True)
             goals.append(f"agree_cpp {clist([cbytes(c) for c in chunks])} {cbytes(list(ob))}")
         fails = run_shards(self.prop + "", self.header, goals)
-        if fails and viol == 0:
+        if fails and not ctx.violations:
             ctx.violation("e2e:corr", {"broken": "end-to-end correspondence goal: " + goals[fails[0]][:300]}, False)
         return {"obligations": len(goals), "discharged": len(goals) - len(fails), "e2e_histories": len(hist),
                 "e2e_executions": total, "cpp_standards": stds}
